@@ -291,7 +291,7 @@ theorem StatusInv_local (F : Flags) (o : Obs) (x : Act) (ev : Ev) (y : Act) (eff
     refine ⟨?_, h2, ?_⟩
     · intro hh; cases hh
     intro hi hw n
-    simp only [Act.stop, Act.stopDeps] at hi ⊢
+    simp only [Act.stopDeps] at hi ⊢
     rw [hi]; exact depErr_direct_ne_exit r n
   | wWake r hp he =>
     refine ⟨?_, h2, ?_⟩
@@ -300,7 +300,7 @@ theorem StatusInv_local (F : Flags) (o : Obs) (x : Act) (ev : Ev) (y : Act) (eff
     have := h1 (by rw [hp]; rfl)
     simp only at hw
     rw [hw] at this; cases this
-  | _ => simp_all [StatusInv, wPhase, Act.stop, Act.stopDeps]
+  | _ => simp_all [StatusInv, wPhase, Act.stop]
 
 theorem StatusInv_sound (P : Program) (F : Flags) (n : Nat) (tr : List Label) (c : Config)
     (h : replay P F (init n) tr = some c) (a : Nat) (x : Act) (hx : c.act? a = some x) : StatusInv x :=
